@@ -1,4 +1,5 @@
 #include <stdbool.h>
+#include <stddef.h>
 #include "log.h"
 #include "mem.h"
 #include "public/module/structs/queue.h"
@@ -68,7 +69,12 @@ _public_ int m_queue_itr_remove(m_queue_itr_t *itr) {
             itr->q->dtor(tmp->userptr);
         }
         if (tmp == itr->q->tail) {
-            itr->q->tail = NULL;
+            /* The predecessor (if any) becomes the new tail: itr->elem points to its prev field */
+            if (itr->elem == &itr->q->head) {
+                itr->q->tail = NULL;
+            } else {
+                itr->q->tail = (queue_elem *)((char *)itr->elem - offsetof(queue_elem, prev));
+            }
         }
         memhook._free(tmp);
         itr->q->len--;
